@@ -249,6 +249,15 @@ class NdArray3:
         self.d1 = d1
 
 
+class IndexV:
+    """Operation.index: a scalar step (ip False: value i0) or a pair [i0, i1] (ip True)."""
+    def __init__(self, ip, i0, i1):
+        self.ip, self.i0, self.i1 = ip, i0, i1
+
+    def __repr__(self):
+        return "IndexV(%s,%s,%s)" % (self.ip, self.i0, self.i1)
+
+
 class RangeV:
     def __init__(self, lo, hi, step=1):
         self.lo, self.hi, self.step = lo, hi, step
